@@ -599,7 +599,7 @@ def run_check(tier, seed):
         'MPI-IO semantics (read_at_all/write_at(_all) on a byte view, zero-length writes are no-ops, writes past EOF zero-extend, Allreduce orders the reads of a round before its writes) are parameters of the model; the count a collective read reports past EOF is modelled both ways (ReadMode.short / ReadMode.full) and every theorem holds for both',
         'I/O errors are not modelled here (C11)',
         'offsets are unbounded naturals in the model; (int)chunk_size cannot truncate because MOVE_UNIT <= INT_MAX (bufcount_fits_int, the macro value is read from the source on every run)',
-        'the layout facts LayoutOK that NC_begins must establish are hypotheses of enddefMove_preserves; they are evaluated on every layout pair the real library produces in the API stream (NC_begins itself is modelled by the Layout module of C03/C18)',
+        'the layout facts LayoutOK that the moving code needs are derived from the model of NC_begins (redef_layout_ok / redef_preserves_data in Props/C06Layout.lean: every well-formed previous layout, every appended variable list, every alignment); that model is tied to NC_begins by the C03 check (model layout = library inquiries over redefinition histories); in addition LayoutOK is still evaluated here on every layout pair the real library produces in the API stream',
     ]
     V.cov['trusted_base'] = TRUSTED_BASE_COMMON + [
         'lean/PnVerif/Model/Redef.lean is a hand transcription of move_file_block / move_fixed_vars / move_record_vars / the moving block of ncmpio__enddef / ncmpio_redef / ncmpio_abort, tied to the source by differential execution only',
@@ -608,8 +608,8 @@ def run_check(tier, seed):
     wd = workdir('c06')
     try:
         # ---- S3 prove
-        ok, out = lake_build(['PnVerif.Props.C06', 'c06drv'])
-        obl = obligations_of('PnVerif/Props/C06.lean')
+        ok, out = lake_build(['PnVerif.Props.C06', 'PnVerif.Props.C06Layout', 'c06drv'])
+        obl = obligations_of('PnVerif/Props/C06.lean') + obligations_of('PnVerif/Props/C06Layout.lean')
         failed_thms = set()
         if not ok:
             for f, ln, msg in lake_errors(out):
@@ -617,16 +617,18 @@ def run_check(tier, seed):
                 if t:
                     failed_thms.add(t)
             log('[S3] lake build FAILED:', sorted(failed_thms)[:10], out[-600:])
-        discharged, bad = axiom_audit('PnVerif.Props.C06', obl, 'PnVerif.Props.C06') if ok else ([], [])
+        discharged, bad = axiom_audit('PnVerif.Props.C06Layout', obl, 'PnVerif.Props.C06') if ok else ([], [])
         leanfiles = [os.path.join(LEAN, f) for f in ('PnVerif/Model/Redef.lean', 'PnVerif/Lemmas/Redef.lean',
                                                      'PnVerif/Props/C06.lean', 'Driver/C06.lean',
+                                                     'PnVerif/Props/C06Layout.lean', 'PnVerif/Lemmas/LayoutMove.lean',
+                                                     'PnVerif/Lemmas/LayoutLemmas.lean', 'PnVerif/Model/Layout.lean',
                                                      'PnVerif/Model/Fill.lean', 'PnVerif/Props/C16.lean')]
         forb = grep_forbidden(leanfiles)
         V.cov['obligations'] = len(obl)
         V.cov['discharged'] = len(discharged)
-        V.cov['checker_cmd'] = 'cd lean && lake build PnVerif.Props.C06 c06drv && lake env lean <#print axioms of every name in PnVerif.Props.C06.obligations>'
+        V.cov['checker_cmd'] = 'cd lean && lake build PnVerif.Props.C06 PnVerif.Props.C06Layout c06drv && lake env lean <#print axioms of every name in PnVerif.Props.C06.obligations and PnVerif.Props.C06Layout.obligations>'
         if tier == 'thorough' and ok:
-            lc = leanchecker(['PnVerif.Props.C06'])
+            lc = leanchecker(['PnVerif.Props.C06', 'PnVerif.Props.C06Layout'])
             V.cov['leanchecker'] = 'ok' if not lc else str(lc)
             if lc:
                 bad.append(('leanchecker', lc))
